@@ -424,7 +424,15 @@ impl TryFrom<Option<&SubtypeElements>> for PerVisibleRangeConstraints {
                 subtype,
                 extensible: _,
             }) => per_visible_range_constraints(
-                matches!(subtype, ASN1Type::Integer(_)),
+                // value ranges are signed, sizes start at zero; a type reference carries either
+                !matches!(
+                    subtype,
+                    ASN1Type::BitString(_)
+                        | ASN1Type::OctetString(_)
+                        | ASN1Type::CharacterString(_)
+                        | ASN1Type::SequenceOf(_)
+                        | ASN1Type::SetOf(_)
+                ),
                 subtype.constraints(),
             ),
             x => {
